@@ -87,7 +87,14 @@ func leanStrs(l []string) string {
 	return "[" + strings.Join(parts, ", ") + "]"
 }
 
-func writeIfChanged(path, content string) {
+// pending: generated files are written only when every fact was extracted; after a failure the previous files stay (the
+// orchestrator reports the failure; the model keeps the last tables that were fully extracted, so that what the
+// correspondence then finds are differences in behaviour, not artefacts of a half-written table)
+var pending [][2]string
+
+func writeIfChanged(path, content string) { pending = append(pending, [2]string{path, content}) }
+
+func writeNow(path, content string) {
 	old, err := os.ReadFile(path)
 	if err == nil && string(old) == content {
 		return
@@ -1050,6 +1057,9 @@ end PSA.Generated
 			fmt.Fprintln(os.Stderr, "factx:", f)
 		}
 		os.Exit(1)
+	}
+	for _, w := range pending {
+		writeNow(w[0], w[1])
 	}
 	fmt.Printf("factx: %d revisions, %d response stores, %d global stores, %d pod writes\n", len(revs), len(respStores), len(globalStores), len(writeLines))
 }
